@@ -143,6 +143,9 @@ class World:
             names = sorted(set(side_got) ^ set(side_want)) or sorted(k for k in side_got if side_got[k] != side_want.get(k))
             self.fails.append({'kind': 'side_output_differs', 'detail': f'files written next to the object differ from the direct compile after [{note}] ({cls}): {names[:4]} (wrapped has {sorted(side_got)}, direct has {sorted(side_want)})', 'ops': list(self.trace)})
         if expect_cacheable and want[0] == 0:
+            if after.get('non_cacheable_compilations', 0) > before.get('non_cacheable_compilations', 0):
+                # the compile succeeded and its outputs are ordinary files, yet the server decided not to store the result: every repeat would compile again
+                self.fails.append({'kind': 'result_not_stored', 'detail': f'[{note}] compiled successfully but was counted as a non-cacheable compilation: nothing was stored for the identical request to hit', 'ops': list(self.trace)})
             if fp in self.seen and not evicted and not recache:
                 if cls != 'hit' or ran != 0:
                     self.fails.append({'kind': 'repeat_not_hit', 'detail': f'identical successful request was stored earlier but [{note}] was classified {cls}, compiler ran {ran}x', 'ops': list(self.trace)})
@@ -201,7 +204,11 @@ def mutate(w, rng):
     if k == 12: w.write('main.c', 'int f(int x) { return }\n'); return 'break the source'
     if k == 13: w.write('h1.h', '#define A 3\n' + stamp + '#error boom\n'); return 'break a header (#error)'
     if k == 14: w.restart(); return 'restart'
-    if k == 15: w.flags = ([f for f in w.flags if f not in ('-g', '-gsplit-dwarf')] if '-gsplit-dwarf' in w.flags else w.flags + ['-g', '-gsplit-dwarf']); return 'toggle -g -gsplit-dwarf'
+    if k == 15:
+        if '-gsplit-dwarf' in w.flags: w.flags = [f for f in w.flags if f not in ('-g', '-gsplit-dwarf')]; return 'drop -gsplit-dwarf'
+        # without -g clang writes no .dwo at all (gcc 12 still does): an optional output that is legitimately absent
+        if rng.random() < 0.4: w.flags = w.flags + ['-gsplit-dwarf']; return 'add -gsplit-dwarf without -g'
+        w.flags = w.flags + ['-g', '-gsplit-dwarf']; return 'add -g -gsplit-dwarf'
     if k == 16: w.out = {'o1/out.o': 'o2/out.o', 'o2/out.o': 'o1/out.o'}.get(w.out, 'o1/out.o'); return 'same output name in another directory'
     return 'no change'
 
@@ -326,7 +333,18 @@ def run_readonly(root, tag, compiler, seed, n_hist, n_req, oversize=False, damag
             w.sc.env.update(ro_env); w.sc.start(); w.trace.append(f'--- server restarted read-only ({conf}) {ro_env}')
             h0 = w.hits
             recache = 'SCCACHE_RECACHE' in ro_env
+            harness_removed = set()
             for i in range(n_req):
+                if oversize and i == 2:
+                    # some result entries vanish behind the server (another process cleaning up a shared directory): looking them up is a miss, and
+                    # whatever the server does to recover must not cost the read-only cache any *other* entry
+                    res_files = sorted(k for k in listing(w.sc.cache) if not k.startswith('preprocessor'))
+                    for k in res_files[::2]:
+                        os.remove(os.path.join(w.sc.cache, k)); harness_removed.add(k)
+                    w.trace.append(f'--- {len(harness_removed)} of {len(res_files)} result entries deleted behind the server')
+                    w.seen.clear()       # which states lost their entry is not tracked: no hit is demanded from here on, only correct results and an untouched rest
+                    for snap in list(w.snaps)[:8]:
+                        w.revisit(snap); w.request('revisit a populated state after the deletion', expect_cacheable=False)
                 x = rng.random() if i > 0 else 0.9        # the first request after the restart repeats the last populated state as it is
                 if x < 0.4 and w.snaps: w.revisit(rng.choice(w.snaps)); note = 'revisit a populated state'
                 elif x < 0.8: note = mutate(w, rng)
@@ -340,7 +358,7 @@ def run_readonly(root, tag, compiler, seed, n_hist, n_req, oversize=False, damag
                 if not known: w.seen.pop(fp, None)
             w.sc.stop()
             after = listing(w.sc.cache)
-            added = sorted(set(after) - set(before)); removed = sorted(set(before) - set(after)); changed = sorted(k for k in before if k in after and before[k] != after[k])
+            added = sorted(set(after) - set(before)); removed = sorted(set(before) - set(after) - harness_removed); changed = sorted(k for k in before if k in after and before[k] != after[k])
             if added or removed or changed:
                 fails.append({'kind': 'readonly_cache_modified' + ('_tight' if oversize == 'tight' else '_oversize' if oversize else '') + ('_file_mode_with_env_dir' if conf == 'file_env_dir' else ''), 'detail': f'added={added[:3]} removed={removed[:3]} changed={changed[:3]} (entries before {len(before)}, after {len(after)})', 'ops': list(w.trace)})
             reqs += n_req; hits += w.hits - h0
@@ -630,6 +648,9 @@ CORPUS = {
     # the object of a -gsplit-dwarf compile names its .dwo companion: the same file name in another directory must not be served from the first
     'split_dwarf_two_output_dirs': [('enable -g -gsplit-dwarf, output o1/out.o', [_flags(add=('-g', '-gsplit-dwarf')), _set('out', 'o1/out.o')]), ('same name in o2', [_set('out', 'o2/out.o')]),
                                     ('back to o1', [_set('out', 'o1/out.o')]), ('plain name', [_set('out', 'out.o')])],
+    # -gsplit-dwarf without -g: clang writes no .dwo at all (gcc 12 still does) — an optional output that is legitimately absent; the result is
+    # stored all the same and the repeat is a hit
+    'split_dwarf_without_g': [('add -gsplit-dwarf (no -g)', [_flags(add=('-gsplit-dwarf',))]), ('repeat', []), ('edit source', [_src(3)]), ('revert source', [_src(1)])],
     'language_then_back': [('as C++', [_set('lang', 'c++')]), ('as C', [_set('lang', 'c')]), ('as C++ again', [_set('lang', 'c++')])],
     'define_then_back': [('-DX=1', [_flags(add=('-DX=1',))]), ('-DX=2', [_flags(add=('-DX=2',), remove=('-DX=1',))]), ('-DX=1 again', [_flags(add=('-DX=1',), remove=('-DX=2',))])],
 }
